@@ -13,7 +13,8 @@ RULE = ("generated DAE models (affine and bilinear residuals over 0-2 states, 0-
         "constant inputs, parameters, time, occasionally derivatives in algebraic rows), grids of 2-5 "
         "non-equidistant stamps with t0 != 0, theta in {0, 1/4, 1/2, 3/4, 1}, nominals over 3 orders of "
         "magnitude, ensembles of 1-3 members with coinciding / 0 / 1 parameter values, controls on coarser "
-        "own grids with all three interpolation modes, histories (incl. NaN at t0). transcribe() is observed "
+        "own grids with all three interpolation modes, histories (incl. NaN at t0), parameters declared dynamic "
+        "with a first transcription under other values (the observed one is the second). transcribe() is observed "
         "through nlp g / lbg / ubg at two rational decision vectors and through state_vector indices. "
         "non-trivial = at least two steps or two members and a derivative in the residual; distinct = "
         "abstracted problem shapes")
@@ -23,7 +24,7 @@ MODELLED = ("collocated_integrated_optimization_problem.py transcribe(): layout 
 NOT_MODELLED = "integrate_states=True (single shooting), lookup tables, the linearity check, delayed feedback (C16)"
 ASSUMPTIONS = ["rows are compared at rational probe vectors to 1e-8 relative (binary64 rounding not modelled)"]
 
-FEAT = {"history": True}
+FEAT = {"history": True, "retranscribe": True}
 
 
 def is_dae_diff(d):
